@@ -859,7 +859,7 @@ HEADER = ("From Coq Require Import ZArith List Bool.\nImport ListNotations.\n"
 
 def run(run):
     nj, ns, njs, npy = (700, 400, 250, 3000) if run.thorough else \
-        (80, 50, 24, 300)
+        (64, 40, 20, 300)
     cases = load_corpus()
     run.count("corpus", len(cases))
     cases += [gen_join_case(run.rng, run.thorough) for _ in range(nj)]
